@@ -624,6 +624,60 @@ def check(run):
             R.same("faces are qhull's simplices re-indexed by the position of each kept vertex in the vertex selection", env,
                    [("_e_H2", "H"), ("_e_H3", "H"), ("_e_VID2", "VID"), ("_e_VID3", "VID")],
                    "the hull faces are re-indexed with a different vertex selection than the one that builds the vertex array: faces point at the wrong vertices", "hull-reindex")
+    # ------------------------------------------------------------------ B5 absolute constants only on rescaled quantities
+    run.rule("B5", "minimum_nsphere rescales its points to a unit cube so that its fixed thresholds mean the same for a model in millimetres and in kilometres: "
+                   "every comparison against a non-zero numeric constant is made on a quantity of length exponent 0 (dimension analysis, sa/units.py); "
+                   "what is returned is back in model units (exponent 1)")
+    from fractions import Fraction
+
+    from ..units import Units
+    fn = ix.func("trimesh.nsphere:minimum_nsphere")
+    un = Units(ix)
+    ret = un.analyse(fn, {fn.params[0]: Fraction(1)})
+    n5 = 0
+    for f_, c_, a_, b_, la_, lb_ in un.compares:
+        lit, other = (lb_, a_) if lb_ is not None else ((la_, b_) if la_ is not None else (None, None))
+        if lit is None or lit == 0:
+            continue
+        n5 += 1
+        where_ = f"{f_.module.rel}:{c_.lineno} {f_.qualname}"
+        if isinstance(other, Fraction) and other != 0:
+            run.instance("B5", where_, f"`{ast.unparse(c_)[:70]}`: quantity of length exponent {other} against the constant {lit}", False)
+            run.violation("B5", where_, f"`{ast.unparse(c_)[:80]}` compares a quantity that scales with the size of the model (length exponent {other}) with the absolute "
+                                        f"constant {lit}: after the rescaling to a unit cube was undone (or before it was applied) the threshold means something else for "
+                                        f"every unit of length - small models always pass the on-a-sphere shortcut, large ones never do",
+                          key=key_of("C16-B5", f_.qualname, ast.unparse(c_)[:60]))
+        elif isinstance(other, Fraction):
+            run.instance("B5", where_, f"`{ast.unparse(c_)[:70]}`: dimensionless quantity against the constant {lit}", True)
+        else:
+            run.instance("B5", where_, f"`{ast.unparse(c_)[:70]}`: exponent not determined - NOT decided", True, nontrivial=False)
+    # two quantities compared with each other have the same exponent
+    for f_, c_, a_, b_, la_, lb_ in un.compares:
+        if f_ is fn and la_ is None and lb_ is None and isinstance(a_, Fraction) and isinstance(b_, Fraction):
+            ok = a_ == b_
+            run.instance("B5", f"{f_.module.rel}:{c_.lineno} {f_.qualname}", f"`{ast.unparse(c_)[:70]}`: exponents {a_} and {b_}", ok)
+            if not ok:
+                run.violation("B5", f"{f_.module.rel}:{c_.lineno} {f_.qualname}", f"`{ast.unparse(c_)[:80]}` compares a quantity of length exponent {a_} with one of exponent "
+                                                                                  f"{b_}: one side is in unit-cube units, the other in model units",
+                              key=key_of("C16-B5", f_.qualname, "mixed", ast.unparse(c_)[:60]))
+    # every return gives centre and radius back in model units
+    n_ret = 0
+    for f_, r_, d_ in un.returns:
+        if f_ is not fn or not (isinstance(d_, tuple) and len(d_) == 2):
+            continue
+        known = [x for x in d_ if isinstance(x, Fraction)]
+        if not known:
+            continue
+        n_ret += 1
+        ok = all(x == 1 for x in known)
+        run.instance("B5", f"{fn.module.rel}:{r_.lineno} {fn.qualname}", f"`{ast.unparse(r_)[:60]}`: length exponents {tuple(str(x) for x in d_)}", ok)
+        if not ok:
+            run.violation("B5", f"{fn.module.rel}:{r_.lineno} {fn.qualname}", f"`{ast.unparse(r_)[:60]}` returns centre / radius with length exponents "
+                                                                             f"{tuple(str(x) for x in d_)}: the rescaling to a unit cube is not undone on what is returned",
+                          key=key_of("C16-B5", "returns", ast.unparse(r_)[:40]))
+    if n_ret == 0:
+        run.instance("B5", fn.where, "exponents of the returned centre / radius not determined - NOT decided", True, nontrivial=False)
+        run.assume("minimum_nsphere: length exponents of the returned values not determined")
     run.assume("the direction / centre searches (qhull, Voronoi, least squares, optimiser), convexity and watertightness of qhull output, minimality and bounding_cylinder are not decided")
     return {
         "explanation": "Canonical-form structural rules plus one polynomial identity and one finite enumeration: whatever candidate the numerical search picks, the reported "
